@@ -199,6 +199,34 @@ func c20Encode(c *engine.Ctx, cs c20Case) {
 	if err != nil {
 		return
 	}
+	// second object with an adversarial (but legal) memory layout of the caller's slices
+	for mode := 0; mode < 2; mode++ {
+		lr, err := univ.Build(m)
+		if err != nil {
+			break
+		}
+		intact := univ.RelayoutMode(&lr.Payloads, mode)
+		d0 := engine.Dump(&lr.Payloads)
+		var rb []byte
+		if pi := engine.Catch(func() { rb, err = lr.Encode() }); pi != nil {
+			c.Violate(pi.Sig(), "Encode of a re-laid-out message panics: "+pi.Value, cs)
+			return
+		}
+		if err == nil {
+			if engine.Dump(&lr.Payloads) != d0 {
+				c.Violate("encode-alters-payloads/shared-backing-array", fmt.Sprintf("%s: with sibling slices carved from one backing array, Encode changes a payload (it appends to a slice of the caller)", cs.Name), cs)
+				return
+			}
+			if !intact() {
+				c.Violate("encode-writes-into-spare-capacity", fmt.Sprintf("%s: Encode wrote into the spare capacity behind one of the caller's slices", cs.Name), cs)
+				return
+			}
+			if pb, perr := lm.Encode(); perr == nil && !bytes.Equal(pb, rb) {
+				c.Violate("encoding-depends-on-memory-layout", fmt.Sprintf("%s: the same message encodes differently when its slices share a backing array", cs.Name), cs)
+				return
+			}
+		}
+	}
 	pd0 := engine.Dump(&lm.Payloads)
 	var b1 []byte
 	if pi := engine.Catch(func() { b1, err = lm.Encode() }); pi != nil {
